@@ -435,6 +435,9 @@ type (
 var CtxKey = &CtxKeyName{}
 
 func CtxToEv(ctx context.Context) *Event {
+	if ctx == nil {
+		return nil
+	}
 	v, _ := ctx.Value(CtxKey).(CtxValue)
 	return v.Event
 }
@@ -1043,7 +1046,7 @@ func (e *Event) Machine() *Machine {
 
 // Transition returns the Transition of an Event.
 func (e *Event) Transition() *Transition {
-	if e.machApi == nil {
+	if e == nil || e.machApi == nil {
 		return nil
 	}
 
